@@ -153,6 +153,60 @@ pub fn reference_walk(pool: &WhirlpoolD, ticks: &BTreeMap<i32, TickD>, sp: &Swap
     Ok((paid, received, price, tick, liq, crossed, growth, protocol))
 }
 
+/// A successful swap outcome crossed exactly the initialized ticks between the start state and its end price, in price order,
+/// each once, and the pool liquidity is the start liquidity plus the signed nets of those ticks.  A tick whose price equals the
+/// end price may or may not have been crossed.
+fn no_liquidity_skipped(pool0: &WhirlpoolD, ticks0: &BTreeMap<i32, TickD>, a_to_b: bool, o: &Outcome) -> Result<(), String> {
+    let p = o.pool.as_ref().ok_or("no pool state")?;
+    let p_end = p.sqrt_price;
+    let mut must: Vec<i32> = vec![];
+    let mut may: Option<i32> = None;
+    if a_to_b {
+        if p_end > pool0.sqrt_price {
+            return Err("the price moved against the trade direction".into());
+        }
+        for (t, _) in ticks0.range(..=pool0.tick_current_index).rev() {
+            let pt = sqrt_price_from_tick_index(*t);
+            if pt > p_end {
+                must.push(*t);
+            } else if pt == p_end {
+                may = Some(*t);
+            }
+        }
+    } else {
+        if p_end < pool0.sqrt_price {
+            return Err("the price moved against the trade direction".into());
+        }
+        for (t, _) in ticks0.range(pool0.tick_current_index + 1..) {
+            let pt = sqrt_price_from_tick_index(*t);
+            if pt < p_end {
+                must.push(*t);
+            } else if pt == p_end {
+                may = Some(*t);
+            }
+        }
+    }
+    let mut with_edge = must.clone();
+    if let Some(t) = may {
+        with_edge.push(t);
+    }
+    if o.crossed != must && o.crossed != with_edge {
+        return Err(format!("it crossed {:?} while the initialized ticks between the start and its end price {p_end} are {must:?} (+ {may:?} exactly at the end price)", o.crossed));
+    }
+    let mut liq = pool0.liquidity as i128;
+    for t in &o.crossed {
+        let net = ticks0[t].liquidity_net;
+        liq = if a_to_b { liq - net } else { liq + net };
+    }
+    if liq < 0 || liq as u128 != p.liquidity {
+        return Err(format!("pool liquidity {} is not the start liquidity with the crossed ticks applied ({liq})", p.liquidity));
+    }
+    if o.ticks.len() != ticks0.len() || o.ticks.iter().any(|(t, v)| !o.crossed.contains(t) && ticks0.get(t) != Some(v)) {
+        return Err("a tick outside the crossed list changed".into());
+    }
+    Ok(())
+}
+
 fn permute(arr: [Pubkey; 3], seed: u8) -> [Pubkey; 3] {
     match seed % 6 {
         0 => arr,
@@ -335,8 +389,15 @@ pub fn check_case(c: &PackCase, l: &mut Local) -> Result<(), String> {
         for (what, supply) in [("first array only", [arr[0], arr[0], arr[0]]), ("first two arrays", [arr[0], arr[1], arr[1]]), ("first and third array", [arr[0], arr[2], arr[2]])] {
             let o = run_swap(h0, user, &sp, supply, &[], c.v2);
             if o.ok {
-                cmp_with(&format!("reduced supply ({what}) succeeded"), &o, false)?;
-                l.count("reduced_supply_still_sufficient");
+                if cmp_with(&format!("reduced supply ({what}) succeeded"), &o, false).is_ok() {
+                    l.count("reduced_supply_still_sufficient");
+                } else {
+                    // The swap stopped inside the shortened window (the program ends a step on the edge tick of the last supplied
+                    // array, so a budget that runs out there ends the swap with a different step split and therefore different
+                    // rounding).  What the property requires of it: no liquidity was skipped.
+                    no_liquidity_skipped(&base_pool, &base_ticks, c.a_to_b, &o).map_err(|e| format!("reduced supply ({what}) succeeded but {e}"))?;
+                    l.count("reduced_supply_stopped_inside_the_window_no_liquidity_skipped");
+                }
             } else {
                 l.count("reduced_supply_refused");
             }
@@ -421,7 +482,7 @@ pub fn def() -> CheckDef {
                states, all tick spacings incl. full-range-only), replayed as the same instruction history in four packagings (encodings as generated / flipped / all fixed / \
                all dynamic; empty arrays absent or created on-chain), then one swap.  (1) Metamorphic: abstract state after the history and the swap outcome (amounts, pool \
                fields, every initialized tick, crossed list) identical across packagings and across per-call variations (permuted account order, arrays passed as v2 \
-               supplemental accounts); reduced supply fails or equals the full outcome; an initialized array of another pool is rejected.  (2) Reference walk over the \
+               supplemental accounts); reduced supply fails, equals the full outcome, or stops inside the shortened window having crossed exactly the initialized ticks up to its end price (no liquidity skipped); an initialized array of another pool is rejected.  (2) Reference walk over the \
                sorted abstract tick set with the three-array window rule: amounts, final price, tick, liquidity, fee growth, protocol fee and the crossed-tick list must \
                equal the program's; exactly the crossed ticks changed, each once.  Non-trivial = >=2 crossings spanning >=2 arrays.  Adaptive-fee pools are covered by C14.",
         assumptions: vec!["nsvm runtime as in DESIGN.md §5", "the reference walk uses compute_swap as its step function (decided separately by C02); crossed list from the H2 trace is cross-checked against tick contents"],
